@@ -57,7 +57,7 @@ MCInit ==
 \* generated where it matters: when the report would start an election
 MCReport(w, ps, pref, ok) ==
   LET p == Pair(ps) IN
-  /\ ~ok => (Faults /\ ~Stale(p[1], p[2]) /\ WouldElect(w))
+  /\ ~ok => (Faults /\ ~Stale(p[1], p[2]) /\ WouldElect(w) /\ ~ElectParked)
   /\ DoReportLeader(w, p[1], p[2], ok)
   /\ pref = (IF leader' # leader THEN leader' ELSE "none")
   /\ Step([a |-> "Report", w |-> w, ps |-> ps, l |-> p[1], e |-> p[2], pref |-> pref, ok |-> ok])
@@ -76,6 +76,22 @@ MCReportApply(i, pref) ==
   /\ pref = (IF leader' # leader THEN leader' ELSE "none")
   /\ Step([a |-> "ReportApply", i |-> i, pref |-> pref])
 
+\* a report that completes the quorum gets as far as the comparison inside
+\* electNewPartitionLeader (the election is decided and in flight) ...
+MCElectCheck(w, ps) ==
+  LET p == Pair(ps) IN
+  /\ Len(pend) < MaxPend
+  /\ ~Stale(p[1], p[2]) /\ WouldElect(w)
+  /\ DoElectCheck(w, p[1], p[2])
+  /\ Step([a |-> "ElectCheck", w |-> w, ps |-> ps, l |-> p[1], e |-> p[2]])
+
+\* ... and the i-th of them makes its proposal
+MCElectApply(i, pref) ==
+  /\ i \in 1..Len(pend) /\ pend[i].k = "elect"
+  /\ DoElectApply(i)
+  /\ pref = (IF leader' # leader THEN leader' ELSE "none")
+  /\ Step([a |-> "ElectApply", i |-> i, pref |-> pref])
+
 \* the same for ShrinkISR / ExpandISR
 MCISRCheck(k, r, ps) ==
   LET p == Pair(ps) IN
@@ -92,18 +108,18 @@ MCISRApply(i) ==
 MCShrink(r, ps, ok) ==
   LET p == Pair(ps) IN
   /\ r # p[1]
-  /\ ~ok => (Faults /\ ~EffectiveOnly /\ ~Stale(p[1], p[2]))
+  /\ ~ok => (Faults /\ ~EffectiveOnly /\ ~Stale(p[1], p[2]) /\ ~ElectParked)
   /\ DoShrinkISR(r, p[1], p[2], ok)
   /\ Step([a |-> "Shrink", r |-> r, ps |-> ps, l |-> p[1], e |-> p[2], ok |-> ok])
 
 MCExpand(r, ps, ok) ==
   LET p == Pair(ps) IN
-  /\ ~ok => (Faults /\ ~EffectiveOnly /\ ~Stale(p[1], p[2]))
+  /\ ~ok => (Faults /\ ~EffectiveOnly /\ ~Stale(p[1], p[2]) /\ ~ElectParked)
   /\ DoExpandISR(r, p[1], p[2], ok)
   /\ Step([a |-> "Expand", r |-> r, ps |-> ps, l |-> p[1], e |-> p[2], ok |-> ok])
 
-MCExpire == DoExpire /\ Step([a |-> "Expire"])
-MCLose == DoLoseControllership /\ Step([a |-> "Lose"])
+MCExpire == ~ElectParked /\ DoExpire /\ Step([a |-> "Expire"])
+MCLose == ~ElectParked /\ DoLoseControllership /\ Step([a |-> "Lose"])
 MCRemove == pend = <<>> /\ DoRemoveStream /\ Step([a |-> "Remove"])
 MCRebuild(how) == pend = <<>> /\ DoRebuild(how) /\ Step([a |-> "Rebuild", how |-> how])
 
@@ -111,6 +127,8 @@ MCNext ==
   \/ \E w \in Reporters, ps \in PairSels, pref \in Replicas \cup {"none"}, ok \in BOOLEAN : MCReport(w, ps, pref, ok)
   \/ \E w \in Reporters, ps \in PairSels : MCReportCheck(w, ps)
   \/ \E i \in 1..MaxPend, pref \in Replicas \cup {"none"} : MCReportApply(i, pref)
+  \/ \E w \in Reporters, ps \in PairSels : MCElectCheck(w, ps)
+  \/ \E i \in 1..MaxPend, pref \in Replicas \cup {"none"} : MCElectApply(i, pref)
   \/ \E k \in {"shrink", "expand"}, r \in Replicas, ps \in PairSels : MCISRCheck(k, r, ps)
   \/ \E i \in 1..MaxPend : MCISRApply(i)
   \/ \E r \in Replicas, ps \in PairSels, ok \in BOOLEAN : MCShrink(r, ps, ok)
@@ -133,6 +151,8 @@ StepOK ==
     [] a.a = "ReportApply" -> P_ReportApply(a.i)
     [] a.a = "ISRCheck" -> P_ReportCheck(a.r, a.l, a.e)
     [] a.a = "ISRApply" -> P_ISRApply(a.i)
+    [] a.a = "ElectCheck" -> P_ElectCheck(a.w, a.l, a.e)
+    [] a.a = "ElectApply" -> P_ElectApply(a.i)
     [] a.a = "Shrink" -> P_ShrinkISR(a.r, a.l, a.e)
     [] a.a = "Expand" -> P_ExpandISR(a.r, a.l, a.e)
     [] a.a = "Remove" -> P_RemoveStream
